@@ -8,12 +8,13 @@
             'its group (ghost index); reads only indata[0..size) (exact-size object), input not modified; never appends beyond the specified length: with storage for exactly '
             '4*ceil(size/3) characters no library call throws',
  'inject': [{'file': 'overlay:cxx/base64_cxx.c', 'func': 'base64_encode', 'loop': 0, 'expect': 'while (remaining >= 3)',
-             'assigns': 'remaining, dp, outdata.size, __CPROVER_object_whole(outdata.p)',
-             'invariants': ['remaining <= size && (size - remaining) % 3 == 0',
+             'assigns': 'remaining, dp, g_j, outdata.size, __CPROVER_object_whole(outdata.p)',
+             'invariants': ['remaining <= size && size - remaining == 3 * g_j',
                             '__CPROVER_same_object(dp, indata) && __CPROVER_POINTER_OFFSET(dp) >= 0 && (size_t)__CPROVER_POINTER_OFFSET(dp) == size - remaining',
-                            'outdata.size == 4 * ((size - remaining) / 3) && outdata.size <= outdata.cap',
+                            'outdata.size == 4 * g_j && outdata.size <= outdata.cap',
                             'C18_IMP(g_k < outdata.size, outdata.p[g_k] == SPEC_B64_ENC_CHAR(0, indata, size, g_k))'],
-             'decreases': 'remaining'}],
+             'decreases': 'remaining'},
+            {'file': 'overlay:cxx/base64_cxx.c', 'func': 'base64_encode', 'ghost': 'g_j++;', 'at': 'body-end', 'loop': 0}],
  'trusted': ['libstdc++ std::string implements reserve / push_back / default construction as ISO C++ [basic.string] specifies (stub spec/c18_string_stub.h)'],
  'assumptions': ['indata is passed by its base address (the loop invariant speaks in object offsets)',
                  'executions in which std::string cannot grow (length_error / bad_alloc) leave the function by an exception and are outside the property; '
@@ -24,6 +25,7 @@
 #include "vc.h"
 #include "c18_base64_ref.h"
 #define C18_IMP(a, b) (!(a) || (b))
+size_t g_j; /* ghost: number of complete 3-byte groups encoded so far */
 size_t g_k; /* ghost index: arbitrary, so a statement about character g_k is a statement about every character */
 #include "cxx/base64_cxx.c"
 
@@ -40,6 +42,7 @@ void harness(void)
     g_vc_string_cap = cap;   /* arbitrary storage; exactly the specified length is one of the cases */
     g_vc_string_nothrow = cap >= SPEC_B64_ENC_LEN(n);
     g_k = k;
+    g_j = 0;
     uint8_t x_j = j < n ? x[j] : 0;
 
     struct vc_string r = base64_encode(x, n);
@@ -48,7 +51,7 @@ void harness(void)
     if (k < r.size) {
         __CPROVER_assert(r.p[k] == SPEC_B64_ENC_CHAR(0, x, n, k), "character k is the RFC 4648 character of its 6-bit group, or the pad");
         __CPROVER_assert(SPEC_B64_IS(0, r.p[k]) || r.p[k] == SPEC_B64_PAD, "only RFC 4648 Table 1 letters and =");
-        __CPROVER_assert((r.p[k] == SPEC_B64_PAD) == (k >= SPEC_B64_NCHARS(n)), "pads exactly behind the data characters");
+        __CPROVER_assert((r.p[k] == SPEC_B64_PAD) == (k >= SPEC_B64_NCHARS(n)) && SPEC_B64_IS_DATA_POS(n, k) == (k < SPEC_B64_NCHARS(n)), "pads exactly behind the data characters");
     }
     __CPROVER_assert(!(j < n) || x[j] == x_j, "input not modified");
     CANARY("base64_encode harness end reachable");
